@@ -22,6 +22,8 @@ type Ctx struct {
 	Gen  []*GenPkg // materialised executor packages (template properties)
 	// Alt386 lazily loads ./graphql for GOARCH=386 (thorough tier, lossy-conv)
 	Alt386 func() *pipeline.World
+
+	valHelpers map[*ssa.Function]int // C03: validation helpers of package executor (lazily computed)
 }
 
 // GenPkg is one materialised executor package.
